@@ -63,6 +63,8 @@ func Conc(v string) any {
 		return &a
 	case "C":
 		return stackage.Cond("k", stackage.Eq, "v")
+	case "CS": // a Condition HOLDING a Stack: not a Stack itself (no-nesting lets it in, IsNesting of the parent ignores it)
+		return stackage.Cond("k", stackage.Eq, stackage.And().Push("in"))
 	}
 	return v
 }
@@ -84,6 +86,9 @@ func Proj(x any) string {
 	case *AStack, *WStack, *XStack:
 		return "P"
 	case stackage.Condition:
+		if _, ok := stackage.ConvertStack(tv.Expression()); ok {
+			return "CS"
+		}
 		return "C"
 	}
 	return "?" + fmt.Sprintf("%T", x)
